@@ -149,7 +149,10 @@ def check_entry_points(ctx):
     ns = ctx.repo.fst_namespace()
     cp = ns['copy'][0]
     calls = [n for n in walk_no_nested(cp.node) if isinstance(n, ast.Call) and call_name(n) == '_get_one']
-    ok = bool(calls) and all(len(c.args) >= 3 and isinstance(c.args[2], ast.Constant) and c.args[2].value is False for c in calls)
+    def cut_arg(c):        # third positional of `<node>._get_one(idx, field, cut, options)`, or the keyword
+        return c.args[2] if len(c.args) >= 3 and not any(isinstance(a, ast.Starred) for a in c.args[:3]) else \
+            next((k.value for k in c.keywords if k.arg == 'cut'), None)
+    ok = bool(calls) and all(isinstance(cut_arg(c), ast.Constant) and cut_arg(c).value is False for c in calls)
     ctx.check('R7.3', ok, cp.module, cp.qualname, f'{len(calls)} _get_one(..., False, ...) calls',
               'FST.copy must call _get_one with the literal cut=False', cp.lineno)
     def restores_in_finally(fn_node):
